@@ -125,7 +125,7 @@ example (o : Oracle) (sf : F64 → Str) : Printable o sf sample := by
   exact ⟨int_leaf_ok o sf 5 (by decide), string_leaf_ok o sf _, by decide⟩
 
 example (sf : F64 → Str) : LexC.TextOK sf sample := by
-  have ha : LexC.NameOK ['a'] := ⟨'a', [], rfl, by decide, by decide, (by intro _ a r e; cases e), by decide⟩
+  have ha : LexC.NameOK ['a'] := ⟨'a', [], rfl, by decide, by decide, LexC.NumFree.old (by intro _ a r e; cases e), by decide⟩
   simp only [sample, LexC.TextOK, LexC.LitText, and_true, true_and]
   exact ha
 
